@@ -318,8 +318,10 @@ fn format_lambda(args: &[LambdaArg], body: &SpannedExpr, max_cols: usize, indent
         }
     };
 
-    // Try single-line first for other body types
-    let single_line_body = wrap(format_expr_impl(body, max_cols, indent));
+    // Try single-line first for other body types. (Measured on the single-line rendering:
+    // formatting the body for real here and again below doubled the work at every level of
+    // nested lambdas.)
+    let single_line_body = wrap(format_single_line(body));
     let single_line = format!("{} {}", args_part, single_line_body);
 
     // Check only if it's actually single-line and fits
@@ -345,14 +347,14 @@ fn format_conditional_multiline(
     max_cols: usize,
     indent: usize,
 ) -> String {
-    let cond_str = format_expr_impl(condition, max_cols, indent);
-
-    // Try to fit "if <condition> then" on one line
+    // Try to fit "if <condition> then" on one line. (Measured on the single-line rendering, so
+    // that the condition is formatted only once whichever layout is chosen.)
+    let cond_str = format_single_line(condition);
     let if_then_prefix = format!("if {} then", cond_str);
 
     let inner_indent = indent + INDENT_SIZE;
 
-    if indent + if_then_prefix.len() <= max_cols {
+    if !cond_str.contains('\n') && indent + if_then_prefix.len() <= max_cols {
         // Put then/else clauses on new lines
         // Check if else_expr is another conditional (else-if chain)
         if let Expr::Conditional {
@@ -517,20 +519,14 @@ fn format_binary_op_multiline(
             }
         }
 
-        // If it doesn't fit, break before the operator (keep operator with right operand)
-        let continued_indent = indent;
-        let right_formatted = format_expr_impl(right, max_cols, continued_indent);
-        let right_formatted = if right_needs_parens {
-            format!("({})", right_formatted)
-        } else {
-            right_formatted
-        };
+        // If it doesn't fit, break before the operator (keep operator with right operand);
+        // the right operand was already formatted at this indentation above
         return format!(
             "{}\n{}{} {}",
             left_str,
-            make_indent(continued_indent),
+            make_indent(indent),
             op_str,
-            right_formatted
+            right_str
         );
     }
 
